@@ -18,7 +18,7 @@
 //                                                           (update_slaac_state(t0) drops everything <= t0 and clears the flag;
 //                                                            afterwards process_advertisement(t0) stores t0 + lifetime with
 //                                                            lifetime > 0, or zeroes valid_until and sets the flag)
-// `slaac_poll_step` proves INV inductive over the three poll phases, one phase per path (labels
+// `slaac_step_{maintenance,advertisement,solicitation}` prove INV inductive over the three poll phases (labels
 // `inv:`; maintenance runs at t0 >= the previous poll instant and establishes S5 for t0, the other two
 // phases preserve INV(t0)); the other harnesses start from an arbitrary INV(t0) state.
 #[allow(dead_code, unused_imports, unused_variables, unused_mut)]
@@ -188,7 +188,7 @@ mod v_iface_slaac {
         }
     }
 
-    // @harness props=C13 cfg=KI6 tier=q to=300 mem=4 unwind=18 opts=nomem covers=5 funcs=Slaac::poll_at;Slaac::rs_required;Slaac::sync_required bounds=every_INV_state:_phase_Start/Discovering/Maintaining,_0..=3_solicitations_left,_0..=1_prefixes_(crate_default_capacity),_0..=2_routes,_lifetimes_any_value_up_to_2^32_s;_poll_instant_<2^50_us;_probe_instant_anywhere_from_the_poll_instant_on
+    // @harness props=C13 cfg=KI6 tier=q to=300 mem=4 unwind=4 opts=nomem covers=5 funcs=Slaac::poll_at;Slaac::rs_required;Slaac::sync_required bounds=every_INV_state:_phase_Start/Discovering/Maintaining,_0..=3_solicitations_left,_0..=1_prefixes_(crate_default_capacity),_0..=2_routes,_lifetimes_any_value_up_to_2^32_s;_poll_instant_<2^50_us;_probe_instant_anywhere_from_the_poll_instant_on
     #[kani::proof]
     pub(crate) fn slaac_poll_vs_rs() {
         shapes!(poll_vs_rs_body);
@@ -211,7 +211,7 @@ mod v_iface_slaac {
         assert!(!before(t0, d), "prop:c13_slaac_ra_update_scheduled_by_poll_at");
     }
 
-    // @harness props=C13 cfg=KI6 tier=q to=300 mem=4 unwind=18 opts=nomem covers=2 funcs=Slaac::poll_at;Slaac::sync_required;Slaac::has_ra_update bounds=every_INV_state_with_the_sync_flag_set;_same_bounds_as_slaac_poll_vs_rs
+    // @harness props=C13 cfg=KI6 tier=q to=300 mem=4 unwind=4 opts=nomem covers=2 funcs=Slaac::poll_at;Slaac::sync_required;Slaac::has_ra_update bounds=every_INV_state_with_the_sync_flag_set;_same_bounds_as_slaac_poll_vs_rs
     #[kani::proof]
     pub(crate) fn slaac_poll_after_ra() {
         shapes!(poll_after_ra_body);
@@ -233,70 +233,83 @@ mod v_iface_slaac {
         }
     }
 
-    fn poll_step_body(np: usize, nr: usize) {
+    /// maintenance at t0, from the state an earlier poll (at tp <= t0) left behind, or from new()
+    fn step_maintenance(np: usize, nr: usize) {
         let tp = any_us(0, T_MAX);
         let t0 = any_us(tp, T_MAX);
-        let op: u8 = kani::any();
-        match op {
-            0 => {
-                // maintenance at t0, from the state an earlier poll (at tp <= t0) left behind, or from new()
-                let fresh: bool = kani::any();
-                let mut s = if fresh && np == 0 && nr == 0 { Slaac::new() } else { any_slaac(tp, kani::any(), np, nr) };
-                if fresh && np == 0 && nr == 0 {
-                    assert_inv(&s, tp);
-                }
-                dump("PRE maintenance", &s, tp);
-                let due = s.sync_required(us(t0));
-                if due {
-                    s.update_slaac_state(us(t0));
-                }
-                dump("POST", &s, t0);
-                kani::cover!(due && nr == 2 && s.routes.len() == 1, "one of two routers expired");
-                assert!(!s.sync_required(us(t0)), "inv:S5_maintenance_leaves_nothing_to_sync");
-                assert_inv(&s, t0);
-            }
-            1 => {
-                // ingress at t0 (after maintenance): the interface forwards advertisements only when SLAAC is enabled
-                let mut s = any_slaac(t0, kani::any(), np, nr);
-                dump("PRE advertisement", &s, t0);
-                let src = any_router();
-                let life = Duration::from_micros(any_us(0, LIFE_MAX) as u64);
-                let was = s.phase;
-                s.process_advertisement(&src, life, any_prefix_info(), us(t0));
-                dump("POST", &s, t0);
-                kani::cover!(nr == 1 && s.routes.len() == 2 && np == 0 && s.prefix.len() == 1 && was == Phase::Discovering, "second router and first prefix learnt");
-                kani::cover!(nr == 1 && s.sync_required && s.routes[0].valid_until == us(0) && life == Duration::ZERO, "advertisement with zero router lifetime");
-                assert_inv(&s, t0);
-                assert!(s.phase != Phase::Discovering, "prop:c13_slaac_advertisement_ends_discovery");
-            }
-            _ => {
-                // egress at t0 on a device that accepts frames
-                let mut s = any_slaac(t0, kani::any(), np, nr);
-                dump("PRE solicitation", &s, t0);
-                let rs = s.rs_required(us(t0));
-                if rs {
-                    s.rs_sent(us(t0));
-                }
-                dump("POST", &s, t0);
-                kani::cover!(rs && s.num_solicitations == 0, "last solicitation sent");
-                assert_inv(&s, t0);
-                assert!(!s.rs_required(us(t0)), "prop:c13_slaac_one_solicitation_per_poll");
-                if rs {
-                    assert!(s.poll_at(us(t0)) == Some(us(t0 + RSI)), "prop:c13_slaac_next_solicitation_after_interval");
-                }
-            }
+        let fresh: bool = kani::any();
+        let mut s = if fresh && np == 0 && nr == 0 { Slaac::new() } else { any_slaac(tp, kani::any(), np, nr) };
+        if fresh && np == 0 && nr == 0 {
+            assert_inv(&s, tp);
+        }
+        dump("PRE maintenance", &s, tp);
+        let due = s.sync_required(us(t0));
+        if due {
+            s.update_slaac_state(us(t0));
+        }
+        dump("POST", &s, t0);
+        kani::cover!(due && nr == 2 && s.routes.len() == 1, "one of two routers expired");
+        kani::cover!(due && np == 1 && s.prefix.len() == 0 && nr == 1 && s.routes.len() == 1, "prefix expired, router kept");
+        assert!(!s.sync_required(us(t0)), "inv:S5_maintenance_leaves_nothing_to_sync");
+        assert_inv(&s, t0);
+    }
+
+    /// ingress at t0 (after maintenance): the interface forwards advertisements only when SLAAC is enabled
+    fn step_advertisement(np: usize, nr: usize) {
+        let t0 = any_us(0, T_MAX);
+        let mut s = any_slaac(t0, kani::any(), np, nr);
+        dump("PRE advertisement", &s, t0);
+        let src = any_router();
+        let life = Duration::from_micros(any_us(0, LIFE_MAX) as u64);
+        let was = s.phase;
+        s.process_advertisement(&src, life, any_prefix_info(), us(t0));
+        dump("POST", &s, t0);
+        kani::cover!(nr == 1 && s.routes.len() == 2 && np == 0 && s.prefix.len() == 1 && was == Phase::Discovering, "second router and first prefix learnt");
+        kani::cover!(nr == 1 && s.sync_required && s.routes[0].valid_until == us(0) && life == Duration::ZERO, "advertisement with zero router lifetime");
+        assert_inv(&s, t0);
+        assert!(s.phase != Phase::Discovering, "prop:c13_slaac_advertisement_ends_discovery");
+    }
+
+    /// egress at t0 on a device that accepts frames
+    fn step_solicitation(np: usize, nr: usize) {
+        let t0 = any_us(0, T_MAX);
+        let mut s = any_slaac(t0, kani::any(), np, nr);
+        dump("PRE solicitation", &s, t0);
+        let rs = s.rs_required(us(t0));
+        if rs {
+            s.rs_sent(us(t0));
+        }
+        dump("POST", &s, t0);
+        kani::cover!(rs && s.num_solicitations == 0, "last solicitation sent");
+        kani::cover!(rs && s.num_solicitations == MAX_RTR_SOLICITATIONS - 1, "first solicitation sent");
+        assert_inv(&s, t0);
+        assert!(!s.rs_required(us(t0)), "prop:c13_slaac_one_solicitation_per_poll");
+        if rs {
+            assert!(s.poll_at(us(t0)) == Some(us(t0 + RSI)), "prop:c13_slaac_next_solicitation_after_interval");
         }
     }
 
-    // @harness props=C13 cfg=KI6 tier=q to=600 mem=6 unwind=18 opts=nomem covers=4 funcs=Slaac::update_slaac_state;Slaac::process_advertisement;Slaac::rs_required;Slaac::rs_sent;Slaac::new bounds=one_phase_of_a_poll_(maintenance_|_one_router_advertisement_from_2_routers/2_prefixes_with_any_lifetimes_and_flags_|_solicitation)_from_any_INV_state_or_new();_0..=1_prefixes,_0..=2_routes
+    // @harness props=C13 cfg=KI6 tier=q to=600 mem=8 unwind=18 opts=nomem covers=2 funcs=Slaac::update_slaac_state;Slaac::sync_required;Slaac::new bounds=maintenance_phase_of_a_poll_at_t0>=previous_poll_instant,_from_any_INV_state_or_new();_0..=1_prefixes,_0..=2_routes,_any_lifetimes
     #[kani::proof]
-    pub(crate) fn slaac_poll_step() {
-        shapes!(poll_step_body);
+    pub(crate) fn slaac_step_maintenance() {
+        shapes!(step_maintenance);
+    }
+
+    // @harness props=C13 cfg=KI6 tier=q to=600 mem=8 unwind=18 opts=nomem covers=2 funcs=Slaac::process_advertisement;Slaac::add_route;Slaac::expire_route;Slaac::add_prefix;Slaac::expire_prefix bounds=one_router_advertisement_(2_routers,_2_prefixes,_prefix_length_64/48,_any_flags_and_lifetimes_up_to_2^32_s)_from_any_INV_state;_0..=1_prefixes,_0..=2_routes
+    #[kani::proof]
+    pub(crate) fn slaac_step_advertisement() {
+        shapes!(step_advertisement);
+    }
+
+    // @harness props=C13 cfg=KI6 tier=q to=300 mem=4 unwind=4 opts=nomem covers=2 funcs=Slaac::rs_required;Slaac::rs_sent;Slaac::poll_at bounds=solicitation_phase_of_a_poll_(rs_sent_only_after_rs_required,_as_ndisc_rs_egress_does)_from_any_INV_state;_0..=1_prefixes,_0..=2_routes
+    #[kani::proof]
+    pub(crate) fn slaac_step_solicitation() {
+        shapes!(step_solicitation);
     }
 
     // The exhausted-solicitation state is reached by the interface's own call sequence: new(), then
     // MAX_RTR_SOLICITATIONS times { rs_required -> rs_sent } at increasing instants, no advertisement.
-    // @harness props=C13 cfg=KI6 tier=q to=300 mem=4 unwind=18 opts=nomem covers=2 funcs=Slaac::new;Slaac::rs_required;Slaac::rs_sent;Slaac::poll_at;Slaac::sync_required bounds=history:_new()_then_3_solicitations_at_symbolic_instants_(each_at_or_after_its_deadline),_no_router_answers;_then_poll_at_probed_at_any_later_instant
+    // @harness props=C13 cfg=KI6 tier=q to=300 mem=4 unwind=5 opts=nomem covers=2 funcs=Slaac::new;Slaac::rs_required;Slaac::rs_sent;Slaac::poll_at;Slaac::sync_required bounds=history:_new()_then_3_solicitations_at_symbolic_instants_(each_at_or_after_its_deadline),_no_router_answers;_then_poll_at_probed_at_any_later_instant
     #[kani::proof]
     pub(crate) fn slaac_unanswered_history() {
         let mut s = Slaac::new();
@@ -330,7 +343,7 @@ mod v_iface_slaac {
         assert!(before(tq, d2), "prop:c13_slaac_idle_poll_leaves_future_deadline");
     }
 
-    // @harness props=C13 kind=mustfail cfg=KI6 tier=q to=300 mem=4 unwind=18 opts=nomem
+    // @harness props=C13 kind=mustfail cfg=KI6 tier=q to=300 mem=4 unwind=4 opts=nomem
     #[kani::proof]
     pub(crate) fn slaac_must_fail() {
         let t0 = any_us(0, T_MAX);
